@@ -28,6 +28,31 @@ def _schema_class(ctx: Ctx, name: str) -> ClassInfo:
     raise AnalysisError(f'schema class {name} not found (VW anchors vanished)')
 
 
+def _generator_roles(ctx: Ctx, gen: FuncUnit) -> Dict[str, str]:
+    """fid -> 'nodes' | 'edges' | 'node_types': the methods of the config class that iterate the DAG and construct (directly or
+    through helpers) the schema entries of that kind."""
+    ci = _config_class(ctx)
+    cls = {k: _schema_class(ctx, k) for k in ('Node', 'Edge', 'NodeType')}
+    roles: Dict[str, str] = {}
+    for m in ci.methods.values():
+        if m is gen:
+            continue
+        src = unparse(m.node)
+        if 'graph.nodes' not in src and 'graph.edges' not in src:
+            continue
+        g = ctx.graph(m.fid, depth=4)
+        made = {k for k, c in cls.items() if _ctor_events(g, c)}
+        if 'Edge' in made and 'graph.edges' in src:
+            roles[m.fid] = 'edges'
+        elif 'Node' in made:
+            roles[m.fid] = 'nodes'
+        elif 'NodeType' in made:
+            roles[m.fid] = 'node_types'
+    if sorted(roles.values()) != ['edges', 'node_types', 'nodes']:
+        raise AnalysisError(f'the three generators of the viewer description were not identified ({sorted(roles.values())}) (VW-4 anchor vanished)')
+    return roles
+
+
 def _ctor_events(g: Graph, ci: ClassInfo) -> List[Ev]:
     return [ev for ev in g.events('call') if any(t[0] == 'class' and t[1] is ci for t in ev.info.get('targets', ()))]
 
@@ -172,27 +197,25 @@ def rule_nodes_and_edges(ctx: Ctx, out: Collector) -> None:
         out.bad('VW-1', cons, p.loc(gen_nodes, gen_nodes.node), f'a real node is not described by its own declared attributes '
                                                                 f'({", ".join(sorted(set(problems)))} instead of <node_map[id]>.<attr>): nodes built '
                                                                 f'from a generic class with their own name are shown with the template\'s name')
-    # ---- VW-2
+    # ---- VW-2: the edge generator is interpreted over a small graph
     cons = f'{gen_edges.module.name}::{gen_edges.qualname}::one entry per edge of graph.edges, unfiltered'
-    comps = [n for n in ast.walk(gen_edges.node) if isinstance(n, (ast.ListComp, ast.GeneratorExp))]
-    fors = [n for n in ast.walk(gen_edges.node) if isinstance(n, ast.For)]
-    ok = False
-    detail = 'no comprehension / loop over graph.edges'
-    for c in comps:
-        if len(c.generators) == 1 and unparse(c.generators[0].iter).endswith('graph.edges'):
-            gen = c.generators[0]
-            names = [x.id for x in ast.walk(gen.target) if isinstance(x, ast.Name)]
-            elt = c.elt
-            if gen.ifs:
-                detail = 'edges are filtered'
-            elif isinstance(elt, ast.Call) and unparse(elt.func).endswith('Edge'):
-                kws = {k.arg: unparse(k.value) for k in elt.keywords}
-                if len(names) == 2 and kws.get('source') == names[0] and kws.get('target') == names[1]:
-                    ok = True
-                else:
-                    detail = f'Edge({kws}) does not map (source, target) of the DAG edge'
-    if ok:
-        out.ok('VW-2', cons, p.loc(gen_edges, gen_edges.node), 'Edge(source=u, target=v) for (u, v) in graph.edges')
+    from ..absint import AObj, Interp, Oracle, TOP, enumerate_outcomes
+    world_edges = {('a', 'b'): {}, ('a', 'c'): {'kwarg_name': 'x'}, ('b', 'c'): {'is_switch': True}, ('switch__s', 'c'): {}}
+
+    def run_edges(oracle: Oracle):
+        graph = AObj(('ext', 'networkx.DiGraph'), {'nodes': {n: {} for e in world_edges for n in e}, 'edges': dict(world_edges)})
+        dag = AObj(('ext', 'DAG'), {'graph': graph, 'node_map': {}})
+        return Interp(p, oracle).call_unit(gen_edges, [], {}, AObj(ci, {'_dag': dag}))
+    detail = None
+    for o in enumerate_outcomes(run_edges):
+        if o[0] != 'value' or not isinstance(o[1], (list, tuple)):
+            detail = f'the edge generator does not return a list ({o[1]!r})'
+            continue
+        got = sorted((getattr(e, 'attrs', {}).get('source'), getattr(e, 'attrs', {}).get('target')) for e in o[1])
+        if got != sorted(world_edges):
+            detail = f'for the DAG edges {sorted(world_edges)} the description has {got}'
+    if detail is None:
+        out.ok('VW-2', cons, p.loc(gen_edges, gen_edges.node), f'{len(world_edges)} edges in, the same (source, target) pairs out, once each')
     else:
         out.bad('VW-2', cons, p.loc(gen_edges, gen_edges.node), f'the edge list of the graph description is not one entry per DAG dependency: {detail}')
     # edge id unique: derived from both endpoints
@@ -300,13 +323,28 @@ def rule_schema(ctx: Ctx, out: Collector) -> None:
     gen = ci.methods.get('generate')
     if gen is None:
         raise AnalysisError('GraphConfigImpl.generate not found')
-    gtxt = unparse(gen.node)
     cons = f'{gen.module.name}::{gen.qualname}::nodes, edges and node_types come from the three generators'
-    want = ['nodes=self._generate_nodes()', 'edges=self._generate_edges()', 'node_types=self._generate_node_types(']
-    if all(w in gtxt for w in want):
-        out.ok('VW-4', cons, p.loc(gen, gen.node), 'GraphConfig(nodes=..., edges=..., node_types=..., attributes=...)')
+    from ..absint import AObj, Interp, Oracle, TOP, enumerate_outcomes
+    roles = _generator_roles(ctx, gen)
+
+    def run(oracle: Oracle):
+        stubs = {fid: (lambda interp, a, k, s_, role=role: ('GENERATED', role)) for fid, role in roles.items()}
+        interp = Interp(p, oracle, stubs=stubs)
+        obj = AObj(ci, {'_dag': TOP})
+        return interp.call_unit(gen, ['name'], {}, obj)
+    problems = []
+    for o in enumerate_outcomes(run):
+        if o[0] != 'value' or not isinstance(o[1], AObj):
+            problems.append(f'generate() does not return a description ({o[1]!r})')
+            continue
+        for part in ('nodes', 'edges', 'node_types'):
+            if o[1].attrs.get(part) != ('GENERATED', part):
+                problems.append(f'{part} is {o[1].attrs.get(part)!r}')
+    if not problems:
+        out.ok('VW-4', cons, p.loc(gen, gen.node), 'GraphConfig(nodes=<node generator>, edges=<edge generator>, node_types=<type generator>)')
     else:
-        out.bad('VW-4', cons, p.loc(gen, gen.node), 'generate() does not assemble the description from the node / edge / node-type generators')
+        out.bad('VW-4', cons, p.loc(gen, gen.node), 'generate() does not assemble the description from the node / edge / node-type generators: '
+                + '; '.join(sorted(set(problems))))
 
 
 def _json_closed(ann: ast.AST, classes: Set[str]) -> bool:
